@@ -143,6 +143,56 @@ let fetch_case (f : string array) : string option =
     Some "expansion model-fetch-differs-from-expansion"
   else None
 
+(* ---- the writers (W lines): plan -> seg_track / seg_track_lazy / mux_segments -> read_back ---- *)
+let md5_8 (l : coq_N list) : string =
+  let b = Bytes.create (L.length l) in
+  L.iteri (fun i x -> Bytes.set b i (Char.chr ((int_of_n x) land 255))) l;
+  S.sub (Digest.to_hex (Digest.bytes b)) 0 8
+
+let wsample (x : C05Model.fullsample) : string =
+  let s = x.C05Model.fs_s in
+  Printf.sprintf "%s.%s.%d.%d.%s.%s" (dec_of_n x.C05Model.fs_dts) (dec_of_n s.C05Model.s_dur)
+    (L.length x.C05Model.fs_data) (int_of_z s.C05Model.s_cto) (dec_of_n s.C05Model.s_flags) (md5_8 x.C05Model.fs_data)
+
+let wfiles (ll : C05Model.fullsample list list) : string =
+  match ll with
+  | [] -> "-"
+  | _ -> S.concat "+" (L.map (fun l -> match l with [] -> "e" | _ -> S.concat "," (L.map wsample l)) ll)
+
+exception Wclass of string
+let wget (r : 'a res) : 'a = match r with Ok a -> a | r -> raise (Wclass (class_of r))
+
+let writers_case (mode : string) (d : string) (mstart : string) (mlen : string) (file : string) (tracks : string) : string =
+  let trs = L.map (fun t -> match split_on '/' t with
+      | [k; ts; f0; f1; f2; f3; f4; f5; f6] ->
+        (((k = "v"), n_of_bigdec ts), fetch_tables [| f0; f1; f2; f3; f4; f5; f6 |])
+      | _ -> failwith "bad W track") (split_on '|' tracks) in
+  let pf = { C11FetchModel.pf_bytes = bytes_of_hex file; pf_mdat_start = n_of_bigdec mstart;
+             pf_mdat_len = n_of_bigdec mlen; pf_lazy = (mode = "lazy") } in
+  let pos0 = n_of_int 24 in
+  let trex id = { C05Model.tx_track = id; tx_ddur = N0; tx_dsize = N0; tx_dflags = N0 } in
+  try
+    let ivss = wget (segment_plan (L.map C11Spec.itrack_of trs) (n_of_bigdec d)) in
+    let one = n_of_int 1 in
+    let per =
+      match mode with
+      | "single" ->
+        L.map2 (fun (_, tb) ivs ->
+            let fes = wget (C11FetchModel.seg_track false pf tb one ivs) in
+            wget (C11FetchModel.read_all (C11FetchModel.read_back (trex one) pos0 []) fes)) trs ivss
+      | "lazy" ->
+        L.map2 (fun (_, tb) ivs ->
+            let outs = wget (C11FetchModel.seg_track_lazy false pf tb one ivs) in
+            wget (C11FetchModel.read_all (fun (fe, data) -> C11FetchModel.read_back (trex one) pos0 data fe) outs)) trs ivss
+      | _ ->
+        let strs = L.mapi (fun i ((_, tb), ivs) -> ((tb, n_of_int (i + 1)), ivs)) (L.combine trs ivss) in
+        let nsegs = match ivss with ivs :: _ -> nat_of_int (L.length ivs) | [] -> nat_of_int 0 in
+        let fes = wget (C11FetchModel.mux_segments false pf strs nsegs) in
+        L.mapi (fun i _ -> wget (C11FetchModel.read_all (C11FetchModel.read_back (trex (n_of_int (i + 1))) pos0 []) fes)) trs
+    in
+    "ok:" ^ S.concat "|" (L.map wfiles per)
+  with Wclass c -> c
+
 let opt_n (s : string) : coq_N option = if s = "x" then None else Some (n_of_dec s)
 
 let () =
@@ -228,6 +278,10 @@ let () =
         let m = Printf.sprintf "ok|%s|1=%s;2=%s" (layout_string fo) (rd (n_of_int 1)) (rd (n_of_int 2)) in
         if m = obs then Printf.printf "OK %s\n" id
         else Printf.printf "MISMATCH %s combine model=%s\n" id m
+      | ["W"; id; mode; d; mstart; mlen; file; tracks; obs] ->
+        let m = writers_case mode d mstart mlen file tracks in
+        if m = obs then Printf.printf "OK %s\n" id
+        else Printf.printf "MISMATCH %s segmenter-writers(%s) model=%s\n" id mode (if S.length m > 600 then S.sub m 0 600 else m)
       | "G" :: id :: _ ->
         let f = Array.of_list (split_on '\t' line) in
         if Array.length f <> 19 then Printf.printf "BADLINE %s\n" line
